@@ -2,9 +2,9 @@ package svc
 
 import (
 	"bytes"
-	"regexp"
 	"encoding/binary"
 	"fmt"
+	"regexp"
 
 	"pgregory.net/rapid"
 )
@@ -28,9 +28,15 @@ func sshString(s string) []byte { return append(be32(len(s)), []byte(s)...) }
 
 func genVNC(t *rapid.T) [][]byte {
 	u := [][]byte{[]byte("RFB 003.008\n"), {byte(rapid.SampledFrom([]int{1, 1, 1, 2, 0}).Draw(t, "sec"))}, {byte(rapid.IntRange(0, 1).Draw(t, "shared"))}}
-	n := rapid.IntRange(0, 6).Draw(t, "nmsg")
+	n := rapid.IntRange(0, 8).Draw(t, "nmsg")
+	prev := ""
 	for i := 0; i < n; i++ {
-		switch rapid.SampledFrom([]string{"pixfmt", "enc", "update", "update", "key", "ptr", "cut", "bad"}).Draw(t, "msg") {
+		kind := rapid.SampledFrom([]string{"pixfmt", "enc", "update", "update", "key", "ptr", "cut", "bad"}).Draw(t, "msg")
+		if prev == "pixfmt" && rapid.Bool().Draw(t, "use-format") {
+			kind = "update" // clients change the format in order to use it
+		}
+		prev = kind
+		switch kind {
 		case "pixfmt":
 			bpp := byte(rapid.SampledFrom([]int{8, 16, 32, 24, 0, 64}).Draw(t, "bpp"))
 			tc := byte(rapid.SampledFrom([]int{1, 1, 0}).Draw(t, "truecolour"))
@@ -177,7 +183,21 @@ func genIPP(t *rapid.T) [][]byte {
 	op := rapid.SampledFrom([]int{2, 4, 9, 11, 0x400b, 0x7777}).Draw(t, "op")
 	end := rapid.IntRange(0, 3).Draw(t, "endtag") != 0
 	var extra []byte
-	switch rapid.SampledFrom([]string{"none", "bool", "int", "range", "unknown-tag", "doc"}).Draw(t, "extra") {
+	for ne := rapid.IntRange(0, 3).Draw(t, "nextra"); ne > 0; ne-- {
+		extra = append(extra, ippExtra(t)...)
+	}
+	body := ippBody(op, end, extra)
+	if end && rapid.Bool().Draw(t, "withdoc") {
+		body = append(body, bytes.Repeat([]byte("%PDF"), rapid.IntRange(1, 300).Draw(t, "doc"))...)
+	}
+	ct := rapid.SampledFrom([]string{"application/ipp", "application/ipp", "application/ipp", "text/plain"}).Draw(t, "ct")
+	req := fmt.Sprintf("POST /printers/x HTTP/1.1\r\nHost: lab\r\nContent-Type: %s\r\nContent-Length: %d\r\n\r\n", ct, len(body))
+	return [][]byte{append([]byte(req), body...)}
+}
+
+func ippExtra(t *rapid.T) []byte {
+	var extra []byte
+	switch rapid.SampledFrom([]string{"bool", "int", "range", "unknown-tag", "unknown-tag"}).Draw(t, "extra") {
 	case "bool":
 		extra = append([]byte{0x22}, append(append(be16(1), 'b'), 0, 1, 1)...)
 	case "int":
@@ -187,7 +207,7 @@ func genIPP(t *rapid.T) [][]byte {
 	case "unknown-tag":
 		// a value tag the service does not decode, with boundary name / value lengths (16 bit,
 		// incl. the values that are small negative numbers when read as signed)
-		lens := []int{0, 1, 2, 5, 0x7fff, 0x8000, 0xffff, 0xfffe, 0xfffd, 0xfffc, 0xfffb, 0xfffa, 0xfff9, 0xfff8}
+		lens := []int{0, 1, 2, 0x7fff, 0x8000, 0xffff, 0xfffe, 0xfffd, 0xfffc, 0xfffb, 0xfffa, 0xfff9}
 		nl := rapid.SampledFrom(lens).Draw(t, "namelen")
 		vl := rapid.SampledFrom(lens).Draw(t, "vallen")
 		tag := byte(rapid.SampledFrom([]int{0x30, 0x31, 0x32, 0x35, 0x36, 0x13, 0x10, 0x7f}).Draw(t, "utag"))
@@ -200,13 +220,7 @@ func genIPP(t *rapid.T) [][]byte {
 			extra = append(extra, bytes.Repeat([]byte("v"), vl)...)
 		}
 	}
-	body := ippBody(op, end, extra)
-	if end && rapid.Bool().Draw(t, "withdoc") {
-		body = append(body, bytes.Repeat([]byte("%PDF"), rapid.IntRange(1, 300).Draw(t, "doc"))...)
-	}
-	ct := rapid.SampledFrom([]string{"application/ipp", "application/ipp", "text/plain"}).Draw(t, "ct")
-	req := fmt.Sprintf("POST /printers/x HTTP/1.1\r\nHost: lab\r\nContent-Type: %s\r\nContent-Length: %d\r\n\r\n", ct, len(body))
-	return [][]byte{append([]byte(req), body...)}
+	return extra
 }
 
 func genSSHScript(t *rapid.T, service string) *SSHScript {
